@@ -25,12 +25,19 @@ BASE_T = datetime(2026, 1, 2, 3, 4, 5)
 
 def formatted(chunk, time_format, pid, now):
     """the text the documentation says is written for one chunk"""
-    s = chunk.decode('utf8', 'replace')
-    if time_format is None:
-        return s
-    prefix = '%s [%s] | ' % (now.strftime(time_format), pid)
-    body = s.rstrip('\n')
-    return prefix + body.replace('\n', '\n' + prefix) + '\n'
+    s = chunk if isinstance(chunk, str) else chunk.decode('utf8', 'replace')
+    if time_format is not None:
+        prefix = '%s [%s] | ' % (now.strftime(time_format), pid)
+        body = s.rstrip('\n')
+        s = prefix + body.replace('\n', '\n' + prefix) + '\n'
+    try:
+        s.encode('utf8')
+    except UnicodeEncodeError:
+        # text the file's codec cannot take (a lone surrogate): what is
+        # written is not promised - the stream falls back to a lossy
+        # single-byte rendering of the whole chunk; the bounds hold
+        s = s.encode('latin-1', errors='replace').decode('latin-1')
+    return s
 
 
 class FileWorld(object):
@@ -187,9 +194,11 @@ class FileWorld(object):
             for op in self.case['ops']:
                 kind = op[0]
                 if kind == 'w':
-                    self.op_write(op[1].encode('utf8') if isinstance(
-                        op[1], str) else op[1], op[2],
-                        op[3] if len(op) > 3 else 1)
+                    raw = op[1]
+                    if isinstance(raw, str) and not (len(op) > 4 and op[4]):
+                        raw = raw.encode('utf8')
+                    # (op[4]: handed over as text, not as bytes off a pipe)
+                    self.op_write(raw, op[2], op[3] if len(op) > 3 else 1)
                 elif kind == 'close':
                     self.stream.close()
                     self.check(self.files(), 'close')
@@ -319,6 +328,14 @@ class C20(Prop):
                 ops.append(['w', chunk,
                             rng.choice([7, 4242, 99999]),
                             rng.choice([0, 0, 0.25, 1, 1, 3])])
+                if rng.random() < 0.04:
+                    # text handed over as a str with characters UTF-8 cannot
+                    # encode (lone surrogates, as os.fsdecode produces)
+                    ops[-1][1] = rng.choice(['x\udc80y\n', '\udcff' * 3,
+                                             'a\udc80\u20ac\n', '\ud800'])
+                    if mb:
+                        ops[-1][1] = ops[-1][1][:max(1, (mb - 1) // 3)]
+                    ops[-1].append(True)
             elif x < 0.87:
                 ops.append(['close'])
                 ops.append(['open'])
